@@ -256,9 +256,11 @@ def Outcome.toEnd : Outcome → End
   | .raised _ => .raised
   | .killed _ => .killed
 
+/-- The basename of `p` starts with `tmp#` (how the harness canonicalises the names
+    NamedTemporaryFile picked). -/
 def isTempName (p : String) : Bool :=
-  let base := (p.splitOn "/").getLast?.getD p
-  base.startsWith "tmp#"
+  let base := (p.toList.reverse.takeWhile (· != '/')).reverse
+  ['t', 'm', 'p', '#'].isPrefixOf base
 
 structure Verdict where
   srcWhole : Bool        -- every matched source holds its complete original or complete new bytes
